@@ -31,6 +31,9 @@ pub enum Fault {
     PutRefused(usize),
     /// the n-th put is acknowledged but not kept
     PutLost(usize),
+    /// every put of one chunk — the k-th distinct chunk the network is offered — is answered with an error, the first
+    /// `times` times it is offered (`usize::MAX`: for good): a fault that outlasts the retries of one layer
+    ChunkRefused(usize, usize),
 }
 
 fn key_of(c: &Chunk) -> RecordKey {
@@ -58,6 +61,8 @@ fn upload(data: &Bytes, receipt: &Receipt, public: bool, fault: Fault, ch: &mut 
     let mut held: HashMap<RecordKey, Vec<u8>> = HashMap::new();
     let mut puts = 0usize;
     let mut idle = 0usize;
+    let mut first_seen: Vec<RecordKey> = vec![];
+    let mut offered: HashMap<RecordKey, usize> = HashMap::new();
     // puts wait for the harness to pick which one the network takes next (a search choice); the queries of the
     // client's store verification are answered at once, in the order they were asked
     let mut waiting_puts: Vec<(Record, tokio::sync::oneshot::Sender<Result<(), NetworkError>>)> = vec![];
@@ -122,6 +127,19 @@ fn upload(data: &Bytes, receipt: &Receipt, public: bool, fault: Fault, ch: &mut 
         let (record, sender) = waiting_puts.remove(i);
         let n = puts;
         puts += 1;
+        if let Fault::ChunkRefused(which, times) = fault {
+            if !first_seen.contains(&record.key) {
+                first_seen.push(record.key.clone());
+            }
+            if first_seen.iter().position(|k| *k == record.key) == Some(which) {
+                let seen = offered.entry(record.key.clone()).or_insert(0usize);
+                *seen += 1;
+                if *seen <= times {
+                    let _ = sender.send(Err(NetworkError::RecordNotStoredByNodes(NetworkAddress::from_record_key(&record.key))));
+                    continue;
+                }
+            }
+        }
         if fault == Fault::PutRefused(n) {
             let _ = sender.send(Err(NetworkError::RecordNotStoredByNodes(NetworkAddress::from_record_key(&record.key))));
             continue;
@@ -211,6 +229,14 @@ fn one_upload_input(run: &Run, len: usize, pat: usize, tot: &mut UpTotals) {
                 for k in 0..n.min(if run.quick() { 4 } else { 8 }) {
                     faults.push(Fault::PutRefused(k));
                     faults.push(Fault::PutLost(k));
+                }
+                // one chunk refused again and again: twice, as often as one `put_record` call tries (6), once more, for good
+                for which in [0, n - 1] {
+                    for times in [2usize, 6, 7, usize::MAX] {
+                        if !faults.contains(&Fault::ChunkRefused(which, times)) {
+                            faults.push(Fault::ChunkRefused(which, times));
+                        }
+                    }
                 }
                 let bound = if n <= 4 { 1 } else { 0 };
                 for fault in faults {
